@@ -20,6 +20,7 @@ type Rule struct {
 	Alt    string `json:"alt,omitempty"`  // byz-split: what the others get: nil | alt | none
 	K      int    `json:"k,omitempty"`    // crash: die at the k-th durable write of that height
 	Delay  int    `json:"delay,omitempty"`
+	Trunc  int    `json:"trunc,omitempty"` // crash: additionally cut this many bytes off the WAL head before the restart
 }
 
 func (r Rule) String() string {
@@ -224,6 +225,15 @@ func (nt *Net) restartDue(progress bool) bool {
 		}
 		nt.Trace = append(nt.Trace, fmt.Sprintf("n%d RESTART #%d", n.Idx, n.restarts))
 		nt.armCrash(n)
+		for _, r := range nt.Sc.Rules {
+			if r.Kind == "crash" && r.Node == n.Idx && n.restarts == 1 && r.Trunc > 0 {
+				cut, ll := truncateWAL(n, r.Trunc)
+				nt.Trace = append(nt.Trace, fmt.Sprintf("n%d WAL head cut by %d bytes: %v (last line %d bytes)", n.Idx, r.Trunc, cut, ll))
+				if cut {
+					nt.fired[-1]++
+				}
+			}
+		}
 		if nt.startNode(n) {
 			nt.Mon.onRestart(n)
 			nt.requeue(n)
